@@ -2,6 +2,7 @@
   Kernel tie: `AccountSummary.AddLoss` (x/subaccount/types/accsummary.go) = the model's `Summary.addLoss`.
 -/
 import Sge.Gen.Kernels
+import SgeProofs.Lemmas.KernelsTie
 import Sge.Subaccount
 namespace Sge.KernelsTie
 open Sge Sge.Subaccount Sge.Gen.Kernels
@@ -12,7 +13,7 @@ theorem krn_tie_SubAddLoss (s : Summary) (amt : Int) :
     (subaccount_AccountSummary_AddLoss s.lost amt).map (fun x => { s with lost := x }) = s.addLoss amt := by
   unfold subaccount_AccountSummary_AddLoss Summary.addLoss
   try unfold subaccount_AccountSummary_Available Summary.available
-  (repeat' split) <;> first | rfl | (exfalso; omega) | (simp only [Option.map, Option.some.injEq, Summary.mk.injEq, true_and, and_true] <;> omega)
+  krn_close [Summary.mk.injEq]
 
 example : subaccount_AccountSummary_AddLoss 5 7 = some 12 ∧ subaccount_AccountSummary_AddLoss 5 (-1) = none := by decide +kernel
 
